@@ -120,7 +120,7 @@ example : (Wrap.runCtx .cstream {} (fun _ => ([.recv, .recv, .send 7], .status 9
   have hopen : Wrap.open .cstream = .ok := by decide
   simp only [Wrap.runCtx, Wrap.runCtxCfg, hopen, clientOps]
   simp [go, ctxView, sev, sevIf, cev, endT, hold, holdEv, Wrap.holds, Cfg.current, Wrap.impl, Wrap.terminal,
-    Wrap.close, Wrap.canon, Wrap.startStream, Wrap.xfer_closed, Wrap.xfer_ctxErr, Wrap.sendHeaderIfNeeded,
+    Wrap.close, Wrap.canon, Wrap.startStream, Wrap.xfer_closed, Wrap.xfer_ctxErr, Wrap.sendHeaderIfNeeded, Wrap.sendHeaderIfNeededC, Wrap.sendHeaderC,
     Wrap.sendHeader]
 
 /-- The defect repaired by 14df317, on the model of the code before it: the client of a client-streaming
@@ -135,7 +135,7 @@ theorem C13_legacy_response_before_error :
     simp only [Wrap.runCfg, GrpcRef.run, hopen, clientOps]
     simp [go, sev, cev, endT, hold, holdEv, Wrap.holds, GrpcRef.holds, GrpcRef.statusEv, GrpcRef.wireStatus,
       Cfg.current, Wrap.impl, GrpcRef.impl, Wrap.terminal, GrpcRef.terminal, GrpcRef.writeStatus, Wrap.close,
-      Wrap.canon, Wrap.xfer_closed, Wrap.xfer_ctxErr, Wrap.sendHeaderIfNeeded, Wrap.sendHeader,
+      Wrap.canon, Wrap.xfer_closed, Wrap.xfer_ctxErr, Wrap.sendHeaderIfNeeded, Wrap.sendHeaderIfNeededC, Wrap.sendHeaderC, Wrap.sendHeader,
       GrpcRef.beforeData]
 
 /-- The defect repaired by 8cf1112, on the model of the code before it: the handler's context kept the
